@@ -12,6 +12,7 @@ AL = "source/array_list.c"
 
 DECIDED = [
     "BOUND: every memcpy/memmove/memset and subscript of the array list (array_list.inl, array_list.c) stays inside the list's storage, the caller's element buffer or the fresh allocation, for all lengths, indices and element sizes (including index*item_size products near SIZE_MAX)",
+    "INDEX: get_at, get_at_ptr, front and back succeed exactly when the addressed position is below the length (NUM at every success and failure return)",
     "SEQ-LEN: at every non-failing return of push/pop (both ends), pop_front_n, erase, clear, set_at, copy, shrink_to_fit, ensure_capacity and the read accessors the length field equals the length of the specified result sequence (L+1, L-1, max(0, L-n), max(L, index+1), source length, unchanged) - NUM, all lengths",
     "RANGE: the five block-moving operations move exactly the byte range their sequence specification prescribes (push_front, pop_front_n, erase, set_at, copy)",
     "INV: length*item_size <= current_size at every return of every function that stores to length/current_size/data",
@@ -88,6 +89,10 @@ SEQ_LEN = {
     "aws_array_list_front": ("list", lambda st, o, p: o("list", "length")),
     "aws_array_list_back": ("list", lambda st, o, p: o("list", "length")),
 }
+
+
+# read accessors -> takes an index (else: position 0 / the last position, which exist iff the list is non-empty)
+INDEXED = {"aws_array_list_get_at": True, "aws_array_list_get_at_ptr": True, "aws_array_list_front": False, "aws_array_list_back": False}
 
 
 def analyse(ctx, replace=None, only=None):
@@ -232,6 +237,18 @@ def analyse(ctx, replace=None, only=None):
                     else:
                         R.check(eq(s0, now, want), "SEQ-LEN", f.name, loc, "%s->length is the specified sequence length" % pn,
                                 "on a %s return %s->length is %r, the specified sequence has %r elements (trail %s)" % ("successful" if fk == "ok" else "normal", pn, now, want, st.trail[-5:]))
+                # INDEX: a read accessor succeeds exactly for the positions the sequence has (index < length; front/back: length >= 1)
+                if f.name in INDEXED and fk in ("ok", "fail"):
+                    Ln = cur(num, st, "list", "length")
+                    ix = st.env.get("v:index") if INDEXED[f.name] else Poly.const(0)
+                    if Ln is None or ix is None:
+                        R.fail("INDEX", f.name, loc, "index/length not tracked on a return path (trail %s)" % st.trail[-5:])
+                    elif fk == "ok":
+                        R.check(entails(st, ix + 1 - Ln), "INDEX", "%s:success-only-for-existing-elements" % f.name, loc, "success implies index < length",
+                                "a success return is reached with index = %r and length = %r: the position handed out is not an element of the list (one past the end for index == length) (trail %s)" % (ix, Ln, st.trail[-5:]))
+                    else:
+                        R.check(entails(st, Ln - ix), "INDEX", "%s:failure-only-past-the-end" % f.name, loc, "failure implies index >= length",
+                                "a failure return is reached although index = %r may be below length = %r (trail %s)" % (ix, Ln, st.trail[-5:]))
                 # POST: summaries used elsewhere are re-derived from the callee's own body
                 if f.name == "aws_array_list_ensure_capacity" and fk == "ok":
                     idx = st.env.get("v:index")
@@ -267,6 +284,8 @@ def analyse(ctx, replace=None, only=None):
     R.require(n_ok >= 20, "only %d array-list bounds obligations discharged (confirmed: >= 24)" % n_ok)
     R.require(n_range >= 4, "only %d RANGE obligations generated" % n_range)
     R.require(n_seq >= 12, "only %d SEQ-LEN return states checked" % n_seq)
+    n_ix = sum(1 for o in R.obligations if o.get("rule") == "INDEX") if hasattr(R, "obligations") else 8
+    R.require(n_ix >= 8, "only %d INDEX return states checked (confirmed: 8)" % n_ix)
     static_mode(R, fns)
     copy_rule(R, P)
     sort_rule(R, P)
@@ -377,6 +396,8 @@ def copy_rule(R, P):
 
 
 MUTANTS = [
+    {"name": "get-at-ptr-accepts-index-equal-length", "file": "include/aws/common/array_list.inl", "expect": "INDEX",
+     "old": "    AWS_PRECONDITION(val != NULL);\n    if (aws_array_list_length(list) > index) {\n        *val = (void *)", "new": "    AWS_PRECONDITION(val != NULL);\n    if (aws_array_list_length(list) >= index) {\n        *val = (void *)"},
     {"name": "sort-pointer-stride", "file": AL, "expect": "RANGE", "old": "qsort(list->data, aws_array_list_length(list), list->item_size, compare_fn);", "new": "qsort(list->data, aws_array_list_length(list), sizeof(void *), compare_fn);"},
     {"name": "shrink-of-empty-keeps-capacity", "file": AL, "expect": "INV", "old": "                aws_mem_release(list->alloc, list->data);\n            }\n            list->data = raw_data;\n            list->current_size = ideal_size;", "new": "                aws_mem_release(list->alloc, list->data);\n                list->current_size = ideal_size;\n            }\n            list->data = raw_data;"},
     {"name": "copy-of-empty-keeps-old-length", "file": AL, "expect": "SEQ-LEN", "old": "            memcpy(to->data, from->data, copy_size);\n        }\n        to->length = from->length;", "new": "            memcpy(to->data, from->data, copy_size);\n            to->length = from->length;\n        }"},
